@@ -134,6 +134,9 @@ func GenConfig(prop string, g *Gen, tier string) Config {
 	if c.ValD == "nil" {
 		c.Format = FmtBinary
 	}
+	if (prop == "C08" || prop == "C05" || prop == "C01") && g.Intn(20) == 0 {
+		c.ValD = "inf" // includes values the JSON marshaler rejects: persisting them must fail, not lose them
+	}
 	// occasional custom marshaler (gob): only the configurations that the library's
 	// own decode paths support (compact format, example types given)
 	if g.Intn(12) == 0 && c.ValD != "nil" {
